@@ -214,6 +214,7 @@ func cmdCheck(args []string) int {
 	obls = append(obls, eng.storedFieldsObligations(*prop)...)
 	obls = append(obls, eng.initValuesObligations(*prop)...)
 	obls = append(obls, eng.fieldTagObligations(*prop)...)
+	obls = append(obls, eng.neverAssignedObligations(*prop)...)
 	tGen := time.Since(t0).Seconds() - tLoad
 	tmp, _ := os.MkdirTemp("", "verif-smt-")
 	if !*keep {
@@ -1379,6 +1380,120 @@ func parentKeyOf(root ast.Node, lit *ast.BasicLit) (isKey bool, found bool) {
 		return true
 	})
 	return
+}
+
+// neverAssignedObligations: "neverassigned T.f, T.g" rules: no store instruction of /repo (tests apart) addresses one
+// of the named fields; a composite literal or a whole-struct assignment of the enclosing type counts when it gives the
+// field a value (SSA turns both into stores to the field's address or into a store of the struct value: the latter is
+// reported for the struct types named).
+func (eng *Engine) neverAssignedObligations(tag string) []*Obligation {
+	var out []*Obligation
+	var paths []string
+	for p := range eng.ld.pkgSpecs {
+		paths = append(paths, p)
+	}
+	sort.Strings(paths)
+	for _, p := range paths {
+		for _, rule := range eng.ld.pkgSpecs[p].NeverAssigned {
+			has := false
+			for _, t := range rule.Tags {
+				if t == tag {
+					has = true
+				}
+			}
+			if !has {
+				continue
+			}
+			pk := eng.ld.byPath[p]
+			want := map[string]bool{}   // "T.f"
+			structs := map[string]bool{} // "T"
+			var missing []string
+			for _, a := range rule.Allowed {
+				parts := strings.SplitN(a, ".", 2)
+				found := false
+				if obj := pk.Types.Scope().Lookup(parts[0]); obj != nil && len(parts) == 2 {
+					if st, ok := obj.Type().Underlying().(*types.Struct); ok {
+						for i := 0; i < st.NumFields(); i++ {
+							if st.Field(i).Name() == parts[1] {
+								found = true
+							}
+						}
+					}
+				}
+				if !found {
+					missing = append(missing, a)
+				}
+				want[a] = true
+				structs[parts[0]] = true
+			}
+			named := func(t types.Type) string {
+				if pt, ok := t.Underlying().(*types.Pointer); ok {
+					t = pt.Elem()
+				}
+				if n, ok := t.(*types.Named); ok && n.Obj().Pkg() != nil && n.Obj().Pkg().Path() == p {
+					return n.Obj().Name()
+				}
+				return ""
+			}
+			var bad []string
+			n := 0
+			for _, fn := range eng.ld.repoFunctions() {
+				pos := eng.prog.Fset.Position(fn.Pos())
+				if strings.Contains(pos.Filename, "zz_verif_spec_gen") || strings.HasSuffix(pos.Filename, "_test.go") {
+					continue
+				}
+				n++
+				for _, b := range fn.Blocks {
+					for _, in := range b.Instrs {
+						st, ok := in.(*ssa.Store)
+						if !ok {
+							continue
+						}
+						at := fn.String() + " at " + eng.prog.Fset.Position(in.Pos()).String()
+						if fa, ok := st.Addr.(*ssa.FieldAddr); ok {
+							tn := named(fa.X.Type())
+							if s2, ok := fa.X.Type().Underlying().(*types.Pointer).Elem().Underlying().(*types.Struct); ok && tn != "" {
+								// ... unless the struct written is a non-escaping local copy
+								var root ssa.Value = fa.X
+								for {
+									if f2, ok := root.(*ssa.FieldAddr); ok {
+										root = f2.X
+										continue
+									}
+									break
+								}
+								if al, ok := root.(*ssa.Alloc); ok && !al.Heap {
+									continue
+								}
+								if want[tn+"."+s2.Field(fa.Field).Name()] {
+									bad = append(bad, tn+"."+s2.Field(fa.Field).Name()+" assigned in "+at)
+								}
+							}
+						}
+						// a whole value of one of the struct types stored somewhere (x.Base = other): only when the value
+						// stored goes somewhere else than into a local variable
+						if tn := named(st.Val.Type()); tn != "" && structs[tn] {
+							_, toLocal := st.Addr.(*ssa.Alloc) // a copy into a local variable changes no configuration
+							if _, isPtr := st.Val.Type().Underlying().(*types.Pointer); !isPtr && !toLocal {
+								bad = append(bad, "a whole "+tn+" value assigned in "+at)
+							}
+						}
+					}
+				}
+			}
+			sort.Strings(bad)
+			o := &Obligation{Name: "stores#" + rule.Label, Func: "stores of /repo", Kind: "structural", Label: rule.Label, Tags: rule.Tags,
+				Pos: fmt.Sprintf("%s:%d", rule.File, rule.Line), Structural: true, StructOK: len(bad) == 0 && len(missing) == 0 && n > 0,
+				Goal: fmt.Sprintf("no function of /repo (%d searched) stores to %v", n, rule.Allowed), Guard: "true"}
+			if len(missing) > 0 {
+				o.StructMsg = "no such field: " + strings.Join(missing, ", ")
+			} else if len(bad) > 0 {
+				o.StructMsg = strings.Join(bad, "; ")
+			}
+			out = append(out, o)
+		}
+	}
+	return out
 }
 
 // fieldTagObligations: "fieldtag T.f KEY VALUE" rules, decided on go/types.
